@@ -188,6 +188,7 @@ type scenario struct {
 	Warmup   bool          `json:"warmup"` // run one unrecorded sync first so children exist as the controller makes them
 	Setup    []extOp       `json:"setup"`  // store edits after warm-up
 	Hook     hookProgram   `json:"hook"`
+	Hook2    *hookProgram  `json:"hook2"` // when set: the program used after the warm-up
 	Rounds   []roundSpec   `json:"rounds"`
 	Features []string      `json:"features"`
 }
@@ -265,6 +266,17 @@ func runScenario(sc *scenario) (*caseRec, error) {
 	}
 	for _, op := range sc.Setup {
 		w.applyExt(op)
+	}
+	if sc.Hook2 != nil {
+		h2 := sc.Hook2
+		hookTransport.Set(func(url string, hdr http.Header, req map[string]interface{}) (int, map[string]string, []byte, bool) {
+			code, h, body, ne := h2.answer(url, req)
+			if h == nil {
+				h = map[string]string{}
+			}
+			h["X-Verif-Seq"] = fmt.Sprint(len(w.srv.Log()))
+			return code, h, body, ne
+		})
 	}
 	out := &caseRec{Sc: sc}
 	w.freezeViews()
